@@ -1,10 +1,141 @@
 import GormModel.Drv.Util
+import GormModel.Model.Upsert
 open Lean
 namespace Gorm.Drv
+open Gorm.Upsert
 
-/-- line-protocol handler for C16 (ops are JSON arrays `[opname, args…]`); returns `none` for ops it does not own -/
+namespace HC16
+
+def parseKind (j : Json) : Option ColKind := do
+  let a ← jArr? j
+  let n ← jStr? (arg a 0)
+  match n with
+  | "pk" => some .pk
+  | "plain" => some .plain
+  | "cd" => (jNat? (arg a 1)).map ColKind.clientDefault
+  | "dd" => (jNat? (arg a 1)).map ColKind.dbDefault
+  | "ac" => some .autoCreate
+  | "au" => some .autoUpdate
+  | "sd" => some .softDelete
+  | _ => none
+
+def parseSchema (j : Json) : Option Schema := do
+  let ks ← (← jArr? j).toList.mapM parseKind
+  some { ncols := ks.length, kind := fun c => ks.getD c .plain }
+
+def parseRow (j : Json) : Option Row := do
+  let vs ← (← jArr? j).toList.mapM jNat?
+  some (fun c => vs.getD c 0)
+
+def parseStore (rows : Json) (next : Json) : Option Store := do
+  let rs ← (← jArr? rows).toList.mapM parseRow
+  let n ← jNat? next
+  some { rows := fun k => rs.find? (fun r => r 0 == k), next := n }
+
+def parseCond : Nat → Json → Option Cond
+  | 0, _ => none
+  | fuel + 1, j => do
+    let a ← jArr? j
+    let n ← jStr? (arg a 0)
+    match n with
+    | "eq" => some (.eq (← jNat? (arg a 1)) (← jNat? (arg a 2)))
+    | "raw" => some (.raw (← jNat? (arg a 1)) (← jNat? (arg a 2)))
+    | "and" => do
+      let l ← (← jArr? (arg a 1)).toList.mapM (parseCond fuel)
+      some (.andG l)
+    | _ => none
+
+def parseConds (j : Json) : Option (List Cond) := do
+  (← jArr? j).toList.mapM (parseCond 8)
+
+def parsePair (j : Json) : Option (Nat × Nat) := do
+  let a ← jArr? j
+  some (← jNat? (arg a 0), ← jNat? (arg a 1))
+
+def parseInit (j : Json) : Option (Option Init) :=
+  match j with
+  | Json.null => some none
+  | _ => do
+    let a ← jArr? j
+    let n ← jStr? (arg a 0)
+    match n with
+    | "struct" => do let fs ← (← jArr? (arg a 1)).toList.mapM parsePair; some (some (.structV fs))
+    | "map" => do let fs ← (← jArr? (arg a 1)).toList.mapM parsePair; some (some (.mapV fs))
+    | "kv" => some (some (.kv (← jNat? (arg a 1)) (← jNat? (arg a 2))))
+    | _ => none
+
+def parseAsg (j : Json) : Option (Nat × Asg) := do
+  let a ← jArr? j
+  let c ← jNat? (arg a 0)
+  match arg a 1 with
+  | Json.null => some (c, .excluded)
+  | v => some (c, .lit (← jNat? v))
+
+def parseRule (j : Json) : Option Rule := do
+  let a ← jArr? j
+  let n ← jStr? (arg a 0)
+  match n with
+  | "nothing" => some .doNothing
+  | "all" => some .updateAll
+  | "updates" => do
+    let as ← (← jArr? (arg a 1)).toList.mapM parseAsg
+    if as.isEmpty then none else some (.doUpdates as)
+  | _ => none
+
+def parseStep (j : Json) : Option Step := do
+  let a ← jArr? j
+  let n ← jStr? (arg a 0)
+  match n with
+  | "where" => some (.where_ (← parseConds (arg a 1)))
+  | "oc" => some (.onConflict (← parseRule (arg a 1)))
+  | "attrs" => some (.attrs (← parseInit (arg a 1)))
+  | "assign" => some (.assign (← parseInit (arg a 1)))
+  | "session" => some .session
+  | "ctx" => some .withCtx
+  | _ => none
+
+def parseFin (j : Json) : Option Fin := do
+  let a ← jArr? j
+  let n ← jStr? (arg a 0)
+  match n with
+  | "save" => some (.save (← parseRow (arg a 1)))
+  | "create" => some (.create (← parseRow (arg a 1)))
+  | "foi" => some (.firstOrInit (← parseConds (arg a 1)))
+  | "foc" => some (.firstOrCreate (← parseConds (arg a 1)))
+  | _ => none
+
+def parseCfg (j : Json) : Option CloneCfg :=
+  match j with
+  | Json.str "gen" => some genCfg
+  | _ => do
+    let a ← jArr? j
+    some { clauses := ← jBool? (arg a 0), attrs := ← jBool? (arg a 1), assigns := ← jBool? (arg a 2) }
+
+def rowJ (sch : Schema) (r : Row) : Json := natListJ ((List.range sch.ncols).map r)
+
+def outJ (sch : Schema) (o : Out) : Json :=
+  -- keys that can hold a row: below `next` (invariant of every modelled operation)
+  let rows := (List.range o.store.next).filterMap (fun k => (o.store.rows k).map (rowJ sch))
+  Json.mkObj [("rows", Json.arr rows.toArray), ("next", natJ o.store.next), ("val", rowJ sch o.val),
+    ("ra", natJ o.ra), ("err", Json.str (match o.err with | .ok => "ok" | .unique => "unique"))]
+
+end HC16
+
+open HC16 in
+/-- line-protocol handler for C16:
+    ["c16.run", cfg, kinds, rows, next, steps, fin] -> {rows, next, val, ra, err}
+    ["c16.gencfg"] -> [clauses, attrs, assigns] of the regenerated clone facts -/
 def handleC16 (op : String) (args : Array Json) : Option Json := do
   match op with
+  | "c16.run" =>
+    let cfg ← parseCfg (arg args 1)
+    let sch ← parseSchema (arg args 2)
+    let st ← parseStore (arg args 3) (arg args 4)
+    let steps ← (← jArr? (arg args 5)).toList.mapM parseStep
+    let fin ← parseFin (arg args 6)
+    some (outJ sch (runChain cfg sch st steps fin))
+  | "c16.gencfg" =>
+    some (Json.arr #[Json.bool genCfg.clauses, Json.bool genCfg.attrs, Json.bool genCfg.assigns])
   | _ => none
 
 end Gorm.Drv
